@@ -150,7 +150,8 @@ class CallMixin:
             return self.call_generator(info, env, st, node)
         verifying_self = (self.cur_func is info and self.depth == 0)
         if c is not None and c.use_at_calls and not (
-                verifying_self and not c.recursive_ok):
+                verifying_self and not c.recursive_ok) and \
+                info.key not in getattr(self, "force_inline", ()):
             return self.call_contract(info, c, env, st, node)
         if c is None:
             # a helper without a contract (e.g. introduced by a refactoring):
